@@ -241,8 +241,11 @@ def api_init_fault(rng, T, total_replies=None, total_bytes=None):
     spec["device"]["avail"] = {s: "Ready" for s in present}
     spec["device"]["table"] = device_table(rng, T, ["SYS"] + present, p_answer=0.6)
     spec["device"].pop("unsolicited", None)
-    how = rng.choice(["silent", "eof", "open", "write", "drop"])
-    if how == "drop":
+    how = rng.choice(["silent", "eof", "open", "write", "drop", "cut"])
+    if how == "cut":
+        # the link fails inside one of the synchronisation replies (stage k of 2 + number of present subunits)
+        spec["device"]["cut_reply"] = {"cmd": "@SYS:VERSION=?", "nth": rng.randint(1, 2 + len(present)), "keep": rng.randint(0, 25)}
+    elif how == "drop":
         spec["device"]["drop_at"] = rng.choice([0, 0, 0.0001, 0.05, 0.15, 0.3, round(rng.uniform(0, 12), 3)])
     elif how == "silent":
         spec["device"]["silent_after"] = rng.randint(0, 120)
@@ -572,6 +575,10 @@ def conn_chunked(rng, T):
         t0.append(["sleep", rng.choice([0.2, 1.0, 10.0])])
         t0.append(["put", "MAIN", "VOL", f"-{20 + i}.0"])
     t0 += [["sleep", t + 31.0 * 4 * (len(unsol) + 1) if max(dev["chunk_gaps"]) > 20 else t + 40.0], ["connected"]]
+    if rng.random() < 0.25:
+        # the link fails in the middle of a line: the incomplete tail is never a line
+        dev["eof_after_bytes"] = 40 + rng.randint(0, 10 + sum(len(l.encode()) + 2 for _, l in unsol))      # 40 bytes = the two probe replies
+        t0.pop()
     return {"kind": "conn", "device": dev, "log_size": 0, "threads": [t0], "pre_register": [1], "final_wait": 0}
 
 
